@@ -525,3 +525,176 @@ Proof.
   intros _ H1 H2. split; [apply ntrace_term_monotone, H1|]. split; [apply ntrace_term_monotone, H2|].
   apply ntrace_one_vote_per_term, H2.
 Qed.
+
+(* ------------------------------------------------------------------ *)
+(* 3. grants match the vote *)
+
+Definition VR : N := MsgRequestVoteResponse.
+
+(* the queued vote responses are untouched *)
+Definition vs (r r' : raft) : Prop := sel VR (r_msgs r') = sel VR (r_msgs r).
+
+Lemma vs_refl r : vs r r. Proof. reflexivity. Qed.
+Lemma vs_trans a b c : vs a b -> vs b c -> vs a c.
+Proof. unfold vs. congruence. Qed.
+Lemma cf_vs r r' : cf VR r r' -> vs r r'.
+Proof. apply cf_sel. Qed.
+Lemma wf_vs r r' : wf VR r r' -> vs r r'.
+Proof. apply wf_sel. Qed.
+Lemma vs_same r r' : r_msgs r' = r_msgs r -> vs r r'.
+Proof. unfold vs. intros ->. reflexivity. Qed.
+
+Lemma send_vs r m r' : send r m = Ok r' -> (m_type m =? VR) = false -> vs r r'.
+Proof. intros H E. apply cf_vs. eapply send_cf; eassumption. Qed.
+
+Lemma send_timeout_now_vs r to r' : send_timeout_now r to = Ok r' -> vs r r'.
+Proof. unfold send_timeout_now. intros H. eapply send_vs; [exact H|reflexivity]. Qed.
+
+Lemma step_leader_vs r m r' c : step_leader r m = Ok (r', c) -> vs r r'.
+Proof.
+  unfold step_leader. intros H.
+  dtop H; [ib H y Hy; injection H as <- _; apply cf_vs;
+           eapply (bcast_heartbeat_cf VR eq_refl); exact Hy|].
+  dtop H.
+  { destruct (quorum_recently_active (r_prs r) (r_id r)) as [prs' active].
+    destruct (negb active); [|injection H as <- _; apply vs_same; reflexivity].
+    ib H y Hy. injection H as <- _. apply become_follower_msgs_log in Hy. destruct Hy as [M _].
+    apply vs_same. rewrite M. reflexivity. }
+  dtop H.
+  { destruct (m_entries m); [discriminate|].
+    destruct (get_pr r (r_id r)); [|injection H as <- _; apply vs_refl].
+    destruct (r_lead_transferee r); [injection H as <- _; apply vs_refl|].
+    destruct (filter_conf_changes r _ _ 0) as [[r1 ents] ok] eqn:E.
+    apply (filter_conf_changes_cf VR), cf_vs in E.
+    destruct ok; cbn [negb] in H; [|injection H as <- _; exact E].
+    ib H y Hy. destruct y as [r2 appended]. apply (append_entry_cf VR), cf_vs in Hy.
+    destruct appended; cbn [negb] in H; [|injection H as <- _; eapply vs_trans; eassumption].
+    ib H z Hz. injection H as <- _. apply (bcast_append_cf VR eq_refl eq_refl), cf_vs in Hz.
+    eapply vs_trans; [exact E|]. eapply vs_trans; eassumption. }
+  dtop H.
+  { ib H y Hy. destruct y; cbn [negb] in H; [|injection H as <- _; apply vs_refl].
+    assert (Hnow : forall r' c,
+      (x <- handle_ready_read_index r m (committed (r_log r)) ;;
+       let '(r1, om) := x in
+       r2 <- match om with Some mm => send r1 mm | None => Ok r1 end ;; Ok (r2, E_OK)) = Ok (r', c) ->
+      vs r r').
+    { intros ra ca Ha. ib Ha z Hz. destruct z as [r1 om].
+      apply (handle_ready_read_index_cf VR) in Hz. destruct Hz as [A B]. apply cf_vs in A.
+      ib Ha w Hw. injection Ha as <- _.
+      destruct om as [x|]; [|injection Hw as <-; exact A].
+      eapply vs_trans; [exact A|]. eapply send_vs; [exact Hw|rewrite B; reflexivity]. }
+    dtop H; [eapply Hnow; exact H|].
+    dtop H; [|eapply Hnow; exact H].
+    ib H ctx Hctx. ib H ro' Hro. ib H z Hz. injection H as <- _.
+    apply (bcast_heartbeat_with_ctx_cf VR eq_refl), cf_vs in Hz.
+    eapply vs_trans; [|exact Hz]. apply vs_same. reflexivity. }
+  dtop H.
+  { ib H y Hy. injection H as <- _.
+    apply (handle_append_response_shape VR eq_refl eq_refl) in Hy.
+    destruct Hy as [A|(r3 & p & A & _ & _ & _ & S)]; [apply cf_vs, A|].
+    eapply vs_trans; [apply cf_vs, A|eapply send_timeout_now_vs; exact S]. }
+  dtop H; [ib H y Hy; injection H as <- _; apply cf_vs;
+           eapply (handle_heartbeat_response_cf VR eq_refl eq_refl eq_refl); exact Hy|].
+  dtop H; [ib H y Hy; injection H as <- _; apply cf_vs;
+           eapply (handle_snapshot_status_cf VR); exact Hy|].
+  dtop H; [ib H y Hy; injection H as <- _; apply cf_vs;
+           eapply (handle_unreachable_cf VR); exact Hy|].
+  dtop H; [|injection H as <- _; apply vs_refl].
+  ib H y Hy. injection H as <- _.
+  apply handle_transfer_leader_shape in Hy.
+  destruct Hy as [[-> _]|[(_ & _ & ->)|(_ & _ & _ & pr & _ & [(_ & S)|(_ & r1 & pr1 & b & S & ->)])]].
+  - apply vs_refl.
+  - apply vs_same. reflexivity.
+  - apply send_timeout_now_vs in S. eapply vs_trans; [|exact S]. apply vs_same. reflexivity.
+  - apply (maybe_send_append_cf VR eq_refl eq_refl), cf_vs in S.
+    eapply vs_trans; [|eapply vs_trans; [exact S|apply vs_same; reflexivity]].
+    apply vs_same. reflexivity.
+Qed.
+
+(* (3) every MsgRequestVoteResponse a step queues comes from the vote branch; a granting one
+   answers a MsgRequestVote, goes to its sender, which is the node recorded in r_vote
+   afterwards, and carries the node's (new) term *)
+Theorem grant_matches_vote r m r' c :
+  step r m = Ok (r', c) ->
+  exists new, sel VR (r_msgs r') = sel VR (r_msgs r) ++ new /\
+    forall x, In x new -> m_reject x = false ->
+      m_type m = MsgRequestVote /\ m_to x = m_from m /\ r_vote r' = m_from m /\
+      m_term x = r_term r' /\ m_term x = m_term m /\ m_from x = r_id r'.
+Proof.
+  assert (Hnone : forall r', vs r r' -> exists new, sel VR (r_msgs r') = sel VR (r_msgs r) ++ new /\
+     forall x, In x new -> m_reject x = false ->
+       m_type m = MsgRequestVote /\ m_to x = m_from m /\ r_vote r' = m_from m /\
+       m_term x = r_term r' /\ m_term x = m_term m /\ m_from x = r_id r').
+  { intros ra V. exists []. rewrite app_nil_r. split; [exact V|]. intros x []. }
+  rewrite step_eq. intros H. ib H pre Hpre. apply step_pre_cases in Hpre.
+  destruct pre as [[r1 c1]|r1].
+  - injection H as <- _. apply Hnone.
+    destruct Hpre as (_ & _ & [(_ & _ & ->)|(_ & Hl)]); [apply vs_refl|].
+    unfold low_term_reply in Hl. dtop Hl; [eapply send_vs; [exact Hl|reflexivity]|].
+    dtop Hl; [eapply send_vs; [exact Hl|reflexivity]|injection Hl as <-; apply vs_refl].
+  - assert (H1 : vs r r1 /\ (r1 = r \/ (r_term r1 = m_term m /\ r_id r1 = r_id r))).
+    { destruct Hpre as [[-> _]|(_ & _ & _ & Hf)]; [split; [apply vs_refl|left; reflexivity]|].
+      apply become_follower_facts in Hf. destruct Hf as (F1 & F2 & _ & _ & _ & F6 & _).
+      apply cfg_fields in F2. destruct F2 as (I & _).
+      split; [apply vs_same; exact F6|right; split; assumption]. }
+    destruct H1 as [V1 Hr1].
+    assert (Hnone1 : forall r', vs r1 r' -> exists new, sel VR (r_msgs r') = sel VR (r_msgs r) ++ new /\
+       forall x, In x new -> m_reject x = false ->
+         m_type m = MsgRequestVote /\ m_to x = m_from m /\ r_vote r' = m_from m /\
+         m_term x = r_term r' /\ m_term x = m_term m /\ m_from x = r_id r')
+      by (intros ra V; apply Hnone; eapply vs_trans; eassumption).
+    unfold step_body in H.
+    destruct (m_type m =? MsgHup) eqn:Ehup.
+    { ib H y Hy. injection H as <- _. apply Hnone1, wf_vs.
+      eapply (hup_wf VR eq_refl eq_refl eq_refl); [right; reflexivity|exact Hy]. }
+    destruct ((m_type m =? MsgRequestVote) || (m_type m =? MsgRequestPreVote)) eqn:Ev.
+    { assert (Hq : m_type m = MsgRequestVote \/ m_type m = MsgRequestPreVote)
+        by (apply orb_prop in Ev; destruct Ev as [X|X]; apply N.eqb_eq in X; auto).
+      assert (Hb : step_body r1 m = Ok (r', c)) by (unfold step_body; rewrite Ehup, Ev; exact H).
+      pose proof (step_pre_cases r m (inr r1)) as _.
+      apply step_body_vote in Hb; [|exact Hq].
+      destruct (m_type m =? MsgRequestVote) eqn:Erv.
+      - apply N.eqb_eq in Erv.
+        assert (Hrt : resp_type m = VR) by (unfold resp_type; rewrite Erv; reflexivity).
+        destruct Hb as [_ [(G & Z & ->)|(_ & _ & ci & _ & Hm)]].
+        + exists [vote_resp r1 m (resp_type m) false (m_term m) (0, 0)]. split.
+          * transitivity (sel VR (r_msgs r1 ++ [vote_resp r1 m (resp_type m) false (m_term m) (0, 0)]));
+              [reflexivity|].
+            unfold vs in V1. rewrite <- V1. rewrite sel_app. f_equal.
+            apply sel_one_same. cbn. rewrite Hrt. reflexivity.
+          * intros x [<-|[]] _. cbn. repeat split; try assumption; try reflexivity.
+            (* the term: the request's term is the node's term after the prologue *)
+            destruct Hr1 as [->|[T _]]; [|congruence].
+            (* same state: m_term = r_term or 0 (excluded) or higher & exempt (not a vote) *)
+            clear -Hpre Z Erv.
+            destruct Hpre as [[_ [Z0|[Z1|(_ & _ & E)]]]|(L & _ & _ & Hf)].
+            -- contradiction.
+            -- first [exact Z1|symmetry; exact Z1].
+            -- unfold exempt in E. rewrite Erv in E. discriminate.
+            -- apply become_follower_facts in Hf. destruct Hf as (F1 & _). lia.
+        + apply maybe_commit_by_vote_msgs in Hm.
+          exists [vote_resp r1 m (resp_type m) true (r_term r1) ci]. split.
+          * rewrite Hm.
+            transitivity (sel VR (r_msgs r1 ++ [vote_resp r1 m (resp_type m) true (r_term r1) ci]));
+              [reflexivity|].
+            unfold vs in V1. rewrite <- V1. rewrite sel_app. f_equal.
+            apply sel_one_same. cbn. rewrite Hrt. reflexivity.
+          * intros x [<-|[]] C. discriminate C.
+      - apply Hnone1.
+        assert (Hrt : (resp_type m =? VR) = false) by (unfold resp_type; rewrite Erv; reflexivity).
+        destruct Hb as [_ [(_ & _ & ->)|(_ & _ & ci & _ & Hm)]].
+        + unfold vs.
+          transitivity (sel VR (r_msgs r1 ++ [vote_resp r1 m (resp_type m) false (m_term m) (0, 0)]));
+            [reflexivity|].
+          rewrite sel_app, sel_one_other, app_nil_r; [reflexivity|exact Hrt].
+        + apply maybe_commit_by_vote_msgs in Hm. unfold vs. rewrite Hm.
+          transitivity (sel VR (r_msgs r1 ++ [vote_resp r1 m (resp_type m) true (r_term r1) ci]));
+            [reflexivity|].
+          rewrite sel_app, sel_one_other, app_nil_r; [reflexivity|exact Hrt]. }
+    apply Hnone1.
+    destruct (r_state r1).
+    + apply wf_vs. eapply (step_follower_wf VR eq_refl eq_refl eq_refl eq_refl eq_refl eq_refl eq_refl eq_refl eq_refl); exact H.
+    + apply wf_vs. eapply (step_candidate_wf VR eq_refl eq_refl eq_refl eq_refl eq_refl eq_refl); exact H.
+    + eapply step_leader_vs; exact H.
+    + apply wf_vs. eapply (step_candidate_wf VR eq_refl eq_refl eq_refl eq_refl eq_refl eq_refl); exact H.
+Qed.
